@@ -23,8 +23,8 @@ def main():
     mod = importlib.import_module("corr." + prop.lower())
     if args.replay:
         sys.exit(mod.replay(args.replay))
-    proof = common.proof_step(prop)
     rep = common.Report(prop, tier, seed)
+    proof = common.proof_step(prop)
     model = common.Model()
     try:
         mod.run(rep, model, tier, seed)
